@@ -5,7 +5,7 @@ import random
 from collections import Counter
 
 from .. import gen
-from ..loop import Cancel
+from ..loop import Cancel, FalsyCancel
 from ..tools import run_async_side
 from . import C18_special as special
 
@@ -29,6 +29,7 @@ RULE += (' Also: tee scenarios in which the cancelled child is the last live one
 RULE += (' Also: scoped scenarios over the __getattr__-forwarding adapter.')
 RULE += (' Also: stacks unwound by aclose() instead of a with-block.')
 RULE += (' Also: an advance into which the cancellation was thrown must not hand out an item; re-iterable and lazily set-up sources.')
+RULE += (' Also: every other cancellation object tests false.')
 ASSUMPTIONS = ["user cleanup (source aclose, lock release) does not itself suspend",
                "an async-generator source cancelled inside its own await dies with the cancellation (language semantics)"]
 EXHAUSTIVE = {"quick": False, "thorough": False}
@@ -66,7 +67,7 @@ def cases(tier, seed, shard, nshards):
         # (... also re-iterables that hand out a separate iterator per request - the one the tool advanced is the one
         # that must be released - and sources that set themselves up when asked for their iterator)
         flav = [rng.choice(["async_gen", "async_class", "async_class", "async_class_bare", "async_class_proxy",
-                            "async_class_future", "async_iterable", "async_class_lazy"]) for _ in spec["srcs"]]
+                            "async_class_future", "async_iterable", "async_class_lazy", "async_class_closejob"]) for _ in spec["srcs"]]
         yield {"kind": "tool", "spec": spec, "flav": flav, "susp": rng.choice([1, 1, 2]), "fn_susp": rng.choice([0, 1]),
                "fnfl": "async_def"}
     yield from special.cases(tier, seed, shard, nshards, rng)
@@ -86,14 +87,14 @@ def run_tool(case, stats):
     viols, sigs, evals = [], [], 0
     head = f"{tool} {spec['params']} srcs={spec['srcs']} flav={flav} susp={case['susp']}/{case['fn_susp']}"
     for i in range(1, n + 1):
-        exc = Cancel()
+        exc = (FalsyCancel if i % 2 == 0 else Cancel)()  # (every other cancellation object tests false)
         side = run_async_side(spec, cancel_at=i, cancel_exc=exc, **kw)
         evals += 1
         stats["cancellations"] += 1
         sigs.append((spec, flav, case["susp"], case["fn_susp"], i))
         if side.foreign:
             viols.append({"key": f"{tool}/foreign-suspension", "msg": side.foreign[0]})
-        if tuple(side.term[:3]) != ("raise", "Cancel", True):
+        if tuple(side.term[:3]) != ("raise", type(exc).__name__, True):
             if side.term[0] == "aclose-raised":
                 viols.append({"key": f"{tool}/aclose-raises-after-cancel", "msg": f"{head} cancel@{i}: {side.term}"})
             else:
